@@ -5,11 +5,15 @@ package main
 //
 //   net.<fam> <options> conn <panel actions> [conn …] [sub <submitter actions> …] | <trace>
 //
-// options: mode=b|a (what the script negotiates), retry=<s>, end=<ms> (wait after the scripts, then cancel),
+// options: mode=b|a (what the script negotiates), modes=<b|a per connection> (scripts whose connections negotiate
+//          different modes; mode= is then the mode of the vocabulary, the other decoder's output is listed as dex:),
+//          retry=<s>, end=<ms> (wait after the scripts, then cancel),
 //          cap=<ms> (upper bound for the scripts), voc=<n>:<hex,…> (payloads / trimmed lines whose decoder output
 //          the trace must contain), heap=1 (run alone; report bytes allocated during the run), qcap=<n>.
-// panel actions: see netpanel.go.   submitter actions: h (wait for onconnect), m<n>:<hex,…> (hand one message
-// list to the client; items = proto.Marshal of InboundMessages), s<ms>.
+// panel actions: see netpanel.go.   submitter actions: h[<k>] (wait for the k-th onconnect, default 1), m<n>:<hex,…>
+// (hand one message list to the client; items = proto.Marshal of InboundMessages), s<ms>, B<count>x<size> (hand over
+// one list of <count> graphics states of <size> image bytes each: enough to fill the socket buffers; traced as
+// big:g:i:count:size without its bytes).
 // The executor runs the real ConnectToPanel (net.c08/c09/c10/c12c) or AutoDetectIfPanelEncodingIsBinary
 // (net.c12d) in-process against the scripted panel and prints the trace (netpanel.go) as the record's output.
 
@@ -86,12 +90,14 @@ func ndParseItems(s string) [][]byte {
 // ---- record parsing ----
 type ndSubAction struct {
 	Kind  byte
-	Ms    int
+	Ms    int // s: milliseconds; h: ordinal of the onconnect to wait for; B: image bytes per message
+	N     int // B: number of messages
 	Items [][]byte
 }
 
 type ndScript struct {
 	mode   string
+	modes  string
 	retry  int
 	endMs  int
 	capMs  int
@@ -122,6 +128,8 @@ func ndParse(cmd string, args []string) ndScript {
 			switch kv[0] {
 			case "mode":
 				sc.mode = kv[1]
+			case "modes":
+				sc.modes = kv[1]
 			case "retry":
 				sc.retry = atoi(kv[1])
 			case "end":
@@ -150,6 +158,16 @@ func ndParse(cmd string, args []string) ndScript {
 			case 'm':
 				a.Items = ndParseItems(t[1:])
 			case 'h':
+				a.Ms = 1
+				if len(t) > 1 {
+					a.Ms = atoi(t[1:])
+				}
+			case 'B':
+				x := strings.IndexByte(t, 'x')
+				if x < 0 {
+					panic("bad submitter action " + t)
+				}
+				a.N, a.Ms = atoi(t[1:x]), atoi(t[x+1:])
 			default:
 				panic("bad submitter action " + t)
 			}
@@ -194,18 +212,24 @@ func (netExec) Exec(cmd string, args []string) string {
 
 // decoder table for the vocabulary: what the client's decoder makes of each payload / trimmed line
 func ndDecTable(tr *NetTrace, sc ndScript) {
-	for i, v := range sc.voc {
-		if sc.mode == "a" {
+	one := func(tag string, ascii bool, i int, v []byte) {
+		if ascii {
 			var msgs []*rwp.OutboundMessage
 			if p := guarded(func() { msgs = rawpanellib.RawPanelASCIIstringsToOutboundMessages([]string{string(v)}) }); p != "" {
-				tr.Add("dec:%d:1:%s", i, hx([]byte(p)))
-				continue
+				tr.Add("%s:%d:1:%s", tag, i, hx([]byte(p)))
+				return
 			}
-			tr.Add("dec:%d:%s", i, ndOutItems(msgs))
+			tr.Add("%s:%d:%s", tag, i, ndOutItems(msgs))
 		} else {
 			m := &rwp.OutboundMessage{}
 			proto.Unmarshal(v, m) // result ignored, exactly as the client does
-			tr.Add("dec:%d:%s", i, ndOutItems([]*rwp.OutboundMessage{m}))
+			tr.Add("%s:%d:%s", tag, i, ndOutItems([]*rwp.OutboundMessage{m}))
+		}
+	}
+	for i, v := range sc.voc {
+		one("dec", sc.mode == "a", i, v)
+		if sc.modes != "" { // connections in both modes: also what the other mode's decoder makes of the entry
+			one("dex", sc.mode != "a", i, v)
 		}
 	}
 }
@@ -285,7 +309,27 @@ func ndRunClient(sc ndScript) string {
 			for _, a := range acts {
 				switch a.Kind {
 				case 'h':
-					waitCond(&panel.mu, panel.cond, 4*time.Second, func() bool { return panel.connected > 0 || panel.closed })
+					wait := 4 * time.Second
+					if a.Ms > 1 {
+						wait = 12 * time.Second // a reconnect: loss detection + retry period (+ probe window, EOF sleep)
+					}
+					waitCond(&panel.mu, panel.cond, wait, func() bool { return panel.connected >= a.Ms || panel.closed })
+				case 'B':
+					msgs := make([]*rwp.InboundMessage, a.N)
+					for i := range msgs {
+						img := make([]byte, a.Ms)
+						for j := range img {
+							img[j] = byte(i*31 + j*7)
+						}
+						msgs[i] = &rwp.InboundMessage{States: []*rwp.HWCState{{HWCIDs: []uint32{uint32(500 + i)},
+							HWCGfx: &rwp.HWCGfx{ImageType: rwp.HWCGfx_RGB16bit, W: 320, H: 240, ImageData: img}}}}
+					}
+					tr.Add("big:%d:%d:%d:%d", g, n, a.N, a.Ms)
+					select {
+					case toPanel <- msgs:
+					case <-ctx.Done():
+					}
+					n++
 				case 's':
 					time.Sleep(time.Duration(a.Ms) * time.Millisecond)
 				case 'm':
@@ -299,7 +343,7 @@ func ndRunClient(sc ndScript) string {
 						msgs[i] = m
 						mar[i], _ = proto.Marshal(m)
 					}
-					if sc.mode == "a" {
+					if sc.mode == "a" || strings.Contains(sc.modes, "a") {
 						lines := rawpanellib.InboundMessagesToRawPanelASCIIstrings(msgs)
 						lb := make([][]byte, len(lines))
 						for i, l := range lines {
@@ -710,6 +754,83 @@ func genC08(r *Rng, n int, tier string) {
 	recs = append(recs, ndRecOf("net.c08", optsE, ndHandshake("b"), []string{ndW(ndFrame(ev[0])), ndW(f2[:4]), ndS(1500), ndW(f2[4:]), ndW(ndFrame(ev[1]))}))
 	recs = append(recs, ndRecOf("net.c08", optsE, ndHandshake("b"), []string{ndW(f2[:4]), ndS(700), ndW(f2[4:500]), ndS(700), ndW(f2[500:]), ndW(ndFrame(ev[1]))}))
 	recs = append(recs, ndRecOf("net.c08", optsE, ndHandshake("b"), []string{ndW(f2[:1]), ndS(1500), ndW(f2[1:]), ndS(2500), ndW(ndFrame(ev[1]))}))
+	// (g) idle period BEFORE the first message of a connection (longer than the probe window and than the in-frame
+	// timeout), the first message then whole, cut inside its header, or dribbled; both modes, both ASCII handshakes
+	optsH := []string{"mode=b", "end=300", ndVoc(append([][]byte{{}}, ev...))}
+	idles := []int{2500, 4500}
+	if thorough {
+		idles = []int{2100, 2500, 3500, 4500, 7000}
+	}
+	evs := append(append(ndFrame(ev[0]), ndFrame(ev[1])...), ndFrame(ev[2])...)
+	for i, idle := range idles {
+		recs = append(recs, ndRecOf("net.c08", optsE, ndHandshake("b"), []string{ndS(idle), ndW(evs)}))
+		recs = append(recs, ndRecOf("net.c08", optsE, ndHandshake("b"), ndConcat([]string{ndS(idle)}, ndCutWrites(evs, []int{1 + i%3, 4, 6}, 3), []string{ndS(2500), ndW(ndFrame(ev[1]))})))
+		recs = append(recs, ndRecOf("net.c08", optsH, ndHandshake("b"), []string{ndS(idle), ndW(ndHeader(0)), ndS(idle), ndW(evs)}))
+		for _, hsk := range []string{"a", "s"} {
+			recs = append(recs, ndRecOf("net.c08", optsA, ndHandshake(hsk), []string{ndS(idle), ndW([]byte("HWC#5=Down\r\nping\n")), ndS(idle), ndW([]byte("\nHWC#12=Up\n"))}))
+		}
+	}
+	// (h) an empty message (frame with no payload / blank line), then an idle period, then more messages
+	for i, idle := range idles {
+		e4 := ndHeader(0)
+		recs = append(recs, ndRecOf("net.c08", optsH, ndHandshake("b"), []string{ndW(ndFrame(ev[0])), ndW(e4), ndS(idle), ndW(evs)}))
+		recs = append(recs, ndRecOf("net.c08", optsH, ndHandshake("b"), []string{ndW(append(ndFrame(ev[0]), e4...)), ndS(idle), ndW(e4), ndS(idle), ndW(ndFrame(ev[1]))}))
+		recs = append(recs, ndRecOf("net.c08", optsH, ndHandshake("b"), ndConcat(ndCutWrites(e4, []int{1, 2, 3}, 2+i), []string{ndS(idle), ndW(ndFrame(ev[1]))})))
+		recs = append(recs, ndRecOf("net.c08", optsA, ndHandshake("a"), []string{ndW([]byte("ping\n\r\n")), ndS(idle), ndW([]byte("HWC#5=Down\n"))}))
+	}
+	// (i) the mode is negotiated per connection: connections of one run of the client that speak different modes
+	// (the panel ends a connection at a message boundary; the client reconnects by itself), and plain reconnects
+	asciiS := []byte("HWC#5=Down\r\nping\n_name=Some Panel Name\n")
+	vocM := append(append([][]byte{}, ev...), vocA...)
+	optsM := func(modes string) []string { return []string{"mode=b", "modes=" + modes, "end=300", ndVoc(vocM)} }
+	errHs := func(text string) []string { return []string{"conn", "p6", ndW([]byte("ErrorMsg=" + text + "\n")), "h"} }
+	endC := []string{ndS(60), "c"}
+	binData := func(i int) []string { return ndCutWrites(evs, ndRandCuts(r, len(evs), i%3), 2) }
+	ascData := func(i int) []string { return ndCutWrites(asciiS, ndRandCuts(r, len(asciiS), i%3), 2) }
+	type cdef struct {
+		mode string
+		hs   []string
+		data []string
+	}
+	seqs := [][]cdef{
+		{{"a", errHs("Panel busy, try again"), nil}, {"b", ndHandshake("b"), binData(1)}},
+		{{"a", ndHandshake("s"), ascData(0)}, {"b", ndHandshake("b"), binData(0)}},
+		{{"a", ndHandshake("a"), ascData(2)}, {"b", ndHandshake("b"), binData(2)}},
+		{{"b", ndHandshake("b"), binData(1)}, {"a", ndHandshake("a"), ascData(1)}},
+		{{"b", ndHandshake("b"), binData(0)}, {"a", ndHandshake("a"), ascData(0)}, {"b", ndHandshake("b"), binData(2)}},
+		{{"b", ndHandshake("b"), binData(2)}, {"b", ndHandshake("b"), binData(0)}},
+		{{"a", ndHandshake("a"), ascData(1)}, {"a", ndHandshake("a"), ascData(2)}},
+		{{"a", errHs("Locked"), nil}, {"a", ndHandshake("a"), ascData(0)}, {"b", ndHandshake("b"), []string{ndS(2500), ndW(evs)}}},
+	}
+	if thorough {
+		for i := 0; i < 12; i++ {
+			sq := []cdef{}
+			for k := 0; k < 2+r.Intn(2); k++ {
+				switch r.Intn(4) {
+				case 0:
+					sq = append(sq, cdef{"a", errHs("E" + strconv.Itoa(i)), nil})
+				case 1:
+					sq = append(sq, cdef{"a", ndHandshake([]string{"a", "s"}[r.Intn(2)]), ascData(i + k)})
+				default:
+					sq = append(sq, cdef{"b", ndHandshake("b"), binData(i + k)})
+				}
+			}
+			seqs = append(seqs, sq)
+		}
+	}
+	for _, sq := range seqs {
+		modes := ""
+		secs := [][]string{}
+		for k, c := range sq {
+			modes += c.mode
+			sec := ndConcat(c.hs, c.data)
+			if k < len(sq)-1 {
+				sec = ndConcat(sec, endC)
+			}
+			secs = append(secs, sec)
+		}
+		recs = append(recs, ndRecOf("net.c08", optsM(modes), secs...))
+	}
 	_ = n
 	ndEmitBatch(recs)
 }
@@ -836,6 +957,108 @@ func genC10(r *Rng, n int, tier string) {
 			secs = [][]string{stall, over, last}
 		}
 		recs = append(recs, ndRecOf("net.c10", []string{"mode=b", "end=400", ndVoc(append(voc, []byte{0xff, 0xff}))}, secs...))
+	}
+	// (5) the 4 header bytes arrive in separate segments (every composition of 4 into 2..4 parts), spaced 2 / 40 / 400 ms;
+	// lengths whose high header bytes are not zero, so that a header assembled from too few bytes has another value;
+	//   (5a) the frame is then completed and followed by two valid frames: nothing desynchronises;
+	//   (5b) the header stays truncated after the dribbled bytes and the panel falls silent: dropped, nothing delivered
+	splits := [][]int{{1, 1, 2}, {1, 1, 1, 1}, {2, 1, 1}, {1, 2, 1}, {1, 3}, {2, 2}, {3, 1}}
+	hgaps := []int{2, 40, 400}
+	p64k := ndMsgOfSize(65536)
+	p70k := ndMsgOfSize(70000)
+	tail2 := append(ndFrame(good[1]), ndFrame(good[2])...)
+	dribble := func(b []byte, parts []int, gap int) []string { // the first len(parts) pieces of b, one write each
+		cuts := []int{}
+		o := 0
+		for _, n := range parts {
+			o += n
+			cuts = append(cuts, o)
+		}
+		return ndCutWrites(b[:o], cuts[:len(cuts)-1], gap)
+	}
+	i5 := 0
+	for si, sp := range splits {
+		for gi, gap := range hgaps {
+			if !thorough && (si+gi)%3 != 0 && si > 1 {
+				continue // quick: 1+1+2 and 1+1+1+1 at every spacing, a third of the other compositions
+			}
+			i5++
+			payload := p36
+			switch i5 % 3 {
+			case 1:
+				payload = p64k
+			case 2:
+				payload = p70k
+			}
+			fr := ndFrame(payload)
+			d := []string{}
+			if i5%2 == 0 {
+				d = append(d, ndW(ndFrame(good[0])))
+			}
+			d = ndConcat(d, dribble(fr, sp, gap), []string{ndW(append(append([]byte{}, fr[4:]...), tail2...))})
+			recs = append(recs, ndRecOf("net.c10", []string{"mode=b", "end=400", ndVoc([][]byte{good[0], good[1], good[2], payload})}, ndHandshake("b"), d))
+		}
+	}
+	truncs := [][]int{{1, 1}, {1, 1, 1}, {2, 1}, {1, 2}, {1}, {3}}
+	hvals := []uint32{65536, 36, 458752, 123456, 16777215}
+	i5 = 0
+	for ti, tp := range truncs {
+		for hi, hv := range hvals {
+			if !thorough && (ti+hi)%2 != 0 && ti > 1 {
+				continue
+			}
+			i5++
+			gap := hgaps[i5%3]
+			hdr := ndHeader(hv)
+			d := []string{}
+			if i5%2 == 0 {
+				d = append(d, ndW(ndFrame(good[0])))
+			}
+			d = ndConcat(d, dribble(hdr, tp, gap), []string{ndS(3000)})
+			sent := 0
+			for _, x := range tp {
+				sent += x
+			}
+			if hv == 36 && i5%4 < 2 { // resume: the rest of the frame and a valid frame arrive after the stall
+				d = append(d, ndW(append(append([]byte{}, f40[sent:]...), ndFrame(good[1])...)), ndS(1200))
+			} else {
+				d = append(d, "c")
+			}
+			recs = append(recs, ndRecOf("net.c10", []string{"mode=b", "end=400", ndVoc(voc)}, ndHandshake("b"), d, next))
+		}
+	}
+	// (6) a frame with an empty (or undecodable) payload, then silence for longer than the in-frame timeout, then
+	// valid frames: the connection is kept, everything is delivered
+	for ii, idle := range []int{2500, 4500} {
+		for v := 0; v < 5; v++ {
+			if !thorough && ii == 1 && v%2 == 1 {
+				continue
+			}
+			e4 := ndHeader(0)
+			g2 := []byte{0x08, 0xff}
+			d := []string{}
+			vv := [][]byte{good[0], good[1], good[2], {}, g2}
+			switch v {
+			case 0: // empty frame first on the connection
+				d = []string{ndW(e4), ndS(idle), ndW(tail2)}
+			case 1: // after a valid frame, same segment
+				d = []string{ndW(append(ndFrame(good[0]), e4...)), ndS(idle), ndW(tail2)}
+			case 2: // after a valid frame, own segment; two empty frames; idle twice
+				d = []string{ndW(ndFrame(good[0])), ndW(e4), ndS(idle), ndW(e4), ndW(e4), ndS(idle), ndW(tail2)}
+			case 3: // empty frame dribbled
+				d = ndConcat([]string{ndW(ndFrame(good[0]))}, ndCutWrites(e4, []int{1, 2, 3}, 5), []string{ndS(idle), ndW(tail2)})
+			case 4: // undecodable payload, then idle
+				d = []string{ndW(ndFrame(g2)), ndS(idle), ndW(ndFrame(good[0])), ndW(ndFrame(g2)), ndS(idle), ndW(tail2)}
+			}
+			recs = append(recs, ndRecOf("net.c10", []string{"mode=b", "end=400", ndVoc(vv)}, ndHandshake("b"), d))
+		}
+	}
+	// (7) the malformed frame is the first thing the panel sends after an idle period that follows the handshake
+	for _, idle := range []int{2500} {
+		d := []string{ndS(idle), ndW(append(ndHeader(500000), tail2...)), ndS(300), ndW(tail2), ndS(900)}
+		recs = append(recs, ndRecOf("net.c10", []string{"mode=b", "end=400", ndVoc(voc)}, ndHandshake("b"), d, next))
+		d = []string{ndS(idle), ndW(f40[:2]), ndS(3000), "c"}
+		recs = append(recs, ndRecOf("net.c10", []string{"mode=b", "end=400", ndVoc(voc)}, ndHandshake("b"), d, next))
 	}
 	_ = n
 	ndEmitBatch(recs)
@@ -988,6 +1211,106 @@ func genC09(r *Rng, n int, tier string) {
 		}
 		ptoks = append(ptoks, fmt.Sprintf("p%d:9000", total))
 		recs = append(recs, ndRecOf("net.c09", []string{"mode=" + mode, "end=150", ndVoc(voc)}, ptoks, toks))
+	}
+	// a connection is lost and the client reconnects by itself; what is handed over on the new connection must reach the
+	// panel completely and in order.  The loss happens while the writer goroutine of the old connection is busy (the panel
+	// has stopped reading and the list being written is larger than the socket buffers: blocked in conn.Write) or idle;
+	// it is caused by an over-limit header, a stalled frame, or the panel closing / resetting; the two connections
+	// negotiate the same or different modes; one or two goroutines submit on the new connection.
+	type lossDef struct {
+		m0, loss string
+		blocked  bool
+		m1       string
+	}
+	losses := []lossDef{
+		{"b", "over", true, "b"}, {"b", "close", true, "b"}, {"b", "stall", true, "b"}, {"a", "close", true, "a"},
+		{"a", "close", true, "b"}, {"b", "over", true, "a"}, {"b", "over", false, "b"}, {"a", "close", false, "a"},
+	}
+	if tier == "thorough" {
+		losses = nil
+		for _, m0 := range []string{"b", "a"} {
+			for _, loss := range []string{"over", "stall", "close", "rst"} {
+				if m0 == "a" && (loss == "over" || loss == "stall") {
+					continue
+				}
+				for _, blocked := range []bool{true, false} {
+					for _, m1 := range []string{"b", "a"} {
+						losses = append(losses, lossDef{m0, loss, blocked, m1})
+					}
+				}
+			}
+		}
+	}
+	for li, ld := range losses {
+		c0 := ndHandshake(ld.m0)
+		if ld.blocked {
+			c0 = append(c0, "z", ndS(700))
+		} else {
+			c0 = append(c0, ndS(300))
+		}
+		switch ld.loss {
+		case "over":
+			c0 = append(c0, ndW(ndHeader(uint32(500000+r.Intn(1<<30)))), ndS(200))
+		case "stall":
+			c0 = append(c0, ndW([]byte{byte(1 + r.Intn(200))}), ndS(2400))
+		case "close":
+			c0 = append(c0, "c")
+		case "rst":
+			c0 = append(c0, "r")
+		}
+		total := 6
+		if ld.m1 == "a" {
+			total++
+		}
+		subSecs := [][]string{}
+		for g := 0; g < 1+li%2; g++ {
+			toks := []string{"sub"}
+			if g == 0 {
+				toks = append(toks, "h", ndS(150))
+				if ld.blocked {
+					toks = append(toks, "B40x400000")
+				}
+			}
+			toks = append(toks, "h2")
+			for i := 0; i < 30-20*g; i++ {
+				nm := 1 + r.Intn(3)
+				msgs := []*rwp.InboundMessage{}
+				items := [][]byte{}
+				for j := 0; j < nm; j++ {
+					m := ndInMsg(r, uint32(1000+g*100000+i*10+j), r.Pick(0, 0, 1, 3, 4))
+					msgs = append(msgs, m)
+					b, _ := proto.Marshal(m)
+					items = append(items, b)
+				}
+				if ld.m1 == "a" {
+					for _, l := range rawpanellib.InboundMessagesToRawPanelASCIIstrings(msgs) {
+						total += len(l) + 1
+					}
+				} else {
+					for _, b := range items {
+						total += 4 + len(b)
+					}
+				}
+				toks = append(toks, "m"+ndItems(items))
+			}
+			subSecs = append(subSecs, toks)
+		}
+		c1 := ndHandshake(ld.m1)
+		voc := [][]byte{}
+		for e := 0; e < 5*(li%3); e++ { // some traffic from the panel on the new connection
+			if ld.m1 == "b" {
+				p := ndEvent(uint32(1+e), e%2 == 0)
+				voc = append(voc, p)
+				c1 = append(c1, ndW(ndFrame(p)))
+			} else {
+				l := fmt.Sprintf("HWC#%d=%s", 1+e, []string{"Down", "Up"}[e%2])
+				voc = append(voc, []byte(l))
+				c1 = append(c1, ndW([]byte(l+"\n")))
+			}
+		}
+		c1 = append(c1, fmt.Sprintf("p%d:5000", total))
+		opts := []string{"mode=" + ld.m1, "modes=" + ld.m0 + ld.m1, "end=150", ndVoc(voc)}
+		recs = append(recs, ndRecOf("net.c09", opts, append([][]string{c0, c1}, subSecs...)...))
 	}
 	_ = n
 	ndEmitBatch(recs)
